@@ -47,6 +47,7 @@ def run(ctx):
         ctx.guard("C11", "casts", lambda: casts.census(ctx, prog, scope=None, floor=15))
         ctx.guard("C11", "bs-conversions", lambda: blocksize.log_conversions(ctx, prog))
         ctx.guard("C11", "bs-tables", lambda: data.block_size_tables(ctx, prog))
+        ctx.guard("C11", "const values", lambda: data.const_census(ctx, prog, data.CONST_SCOPES["C11"], floor=1))
         ctx.guard("C11", "summaries", lambda: summary.check(ctx, prog, r'internals::(hash|hash_dual|compare)::(?!.*(Windows|compare_easy))', floor=50))
         ctx.guard("C11", "generic consts", lambda: summary.check_consts(ctx, prog, floor=13))
         ctx.guard("C11", "path summaries", lambda: summary.check_paths(ctx, prog, r'internals::(hash|hash_dual|compare)::(?!.*(Windows|compare_easy))', floor=39))
